@@ -118,3 +118,8 @@ impl BytePages {
     #[verifier::external_body]
     pub fn append(&mut self, b: Bytes) ensures final(self)@ == old(self)@ + b@ { unimplemented!() }
 }
+
+/// R6 target for `u8::from(<bool field>)` (std: false -> 0, true -> 1; vstd has no spec for it)
+pub fn vx_u8_from_bool(b: bool) -> (r: u8)
+    ensures r == (if b { 1u8 } else { 0u8 })
+{ if b { 1 } else { 0 } }
